@@ -7,13 +7,23 @@
 // iterate in an order chosen by the explorer, and EVERY iteration order (all n!
 // orders of the child map, not only the rotations Go produces) is executed for
 // every history of two families and compared with the canonical-order result.
+//
+// Files: main.go (oracle, call plans, history spaces, stability / shared-refs /
+// re-annotate families), families.go (late-child family generalised: history
+// kinds, commit-time patterns, relation parents, parent lists, wide ids; polygon
+// relations joined from several ways), ds.go (custom datasources), audit.go (the
+// families the boundary audit registered). C12_DUMP=<substring of a scenario
+// name> C12_DUMP_FILE=<file> appends what matching scenarios annotate in the
+// canonical order to the file (debugging aid).
 package main
 
 import (
 	"context"
 	"encoding/xml"
 	"fmt"
+	"os"
 	"sort"
+	"strings"
 	"time"
 
 	"github.com/paulmach/osm"
@@ -32,11 +42,15 @@ type result struct {
 	nupd  int
 }
 
-// input builds fresh parents and a fresh datasource.
-type input func() (ways osm.Ways, rels osm.Relations, ds *osm.HistoryDatasource)
+// input builds fresh parents and a fresh datasource. The datasource is any
+// osm.HistoryDatasourcer (annotate.Ways uses its node part): the library's map
+// datasource or one of the custom ones of ds.go.
+type input func() (ways osm.Ways, rels osm.Relations, ds osm.HistoryDatasourcer)
 
 // option sets the annotation runs under (index into optSets)
-var optNames = []string{"default", "ignore-inconsistency", "ignore-missing-children", "ignore-both+threshold"}
+var optNames = []string{"default", "ignore-inconsistency", "ignore-missing-children", "ignore-both+threshold",
+	// boundary audit: options nobody passes, zero-valued, combined, given twice, a filter on the first call
+	"threshold-0", "ignore-both", "options-twice-last-wins", "ignore-both+threshold-150d", "first-call-filter-none", "first-call-filter-first-child+ignore-inconsistency", "ignore-both+negative-threshold"}
 
 // option sets >= reannotate: the parents are annotated once under the default
 // options and then AGAIN with ChildFilter selecting the children whose bit is
@@ -65,48 +79,163 @@ func optSet(i int) []annotate.Option {
 		return []annotate.Option{annotate.IgnoreMissingChildren(true)}
 	case 3:
 		return []annotate.Option{annotate.IgnoreInconsistency(true), annotate.IgnoreMissingChildren(true), annotate.Threshold(time.Minute)}
+	case 4:
+		return []annotate.Option{annotate.Threshold(0)}
+	case 5:
+		return []annotate.Option{annotate.IgnoreInconsistency(true), annotate.IgnoreMissingChildren(true)}
+	case 6:
+		return []annotate.Option{annotate.IgnoreInconsistency(false), annotate.IgnoreMissingChildren(true), annotate.Threshold(time.Second), annotate.IgnoreInconsistency(true), annotate.IgnoreMissingChildren(true), annotate.Threshold(10 * time.Minute), annotate.ChildFilter(nil)}
+	case 7:
+		return []annotate.Option{annotate.IgnoreInconsistency(true), annotate.IgnoreMissingChildren(true), annotate.Threshold(150 * 24 * time.Hour)}
+	case 8:
+		// nothing is annotated yet: every child is annotated regardless of the filter
+		return []annotate.Option{annotate.ChildFilter(func(osm.FeatureID) bool { return false })}
+	case 9:
+		return []annotate.Option{annotate.IgnoreInconsistency(true), annotate.ChildFilter(func(fid osm.FeatureID) bool { return fid.Ref()&0xff == 1 })}
+	case 10:
+		return []annotate.Option{annotate.IgnoreInconsistency(true), annotate.IgnoreMissingChildren(true), annotate.Threshold(-time.Minute)}
 	}
 	return nil
 }
 
-func run(in input, opt int) result {
+// call is one annotate.Ways / annotate.Relations call of a plan.
+type call struct {
+	opts func() []annotate.Option
+	// tolerate: a failure of this (non-final) call does not end the run, the next
+	// call runs on the parents as the failed call left them ("a failing call
+	// followed by a good one"). Only used where the next call recomputes every
+	// child under the same threshold, so that what the failed call left behind
+	// cannot legitimately show in the judged result.
+	tolerate bool
+	// cancelled: the call gets a context that is already cancelled
+	cancelled bool
+	// advance: before the call a growing datasource (dsMode.grow) receives the
+	// rest of the histories
+	advance bool
+	// lastOnly: the call is handed the newest parent version only (the result
+	// judged is still the whole list)
+	lastOnly bool
+}
+
+// plan is the sequence of calls made on one input; the LAST call is judged.
+type plan struct {
+	name  string // "" for the single default call
+	calls []call
+}
+
+func optPlan(opt int) plan {
+	p := plan{}
+	if opt != 0 {
+		p.name = optName(opt)
+	}
+	if opt >= reannotate {
+		p.calls = append(p.calls, call{opts: func() []annotate.Option { return nil }})
+	}
+	p.calls = append(p.calls, call{opts: func() []annotate.Option { return optSet(opt) }})
+	return p
+}
+
+// filterOpt selects the children of the list whose bit is set in mask.
+func filterOpt(children []osm.FeatureID, mask int) annotate.Option {
+	return annotate.ChildFilter(func(fid osm.FeatureID) bool {
+		for i, c := range children {
+			if c == fid {
+				return mask>>uint(i)&1 == 1
+			}
+		}
+		return false
+	})
+}
+
+// seqPlan: a first call under option set first (failure tolerated or not), then
+// - when children is not nil - a call with a ChildFilter over the subset mask
+// of the children combined with option set second, else a plain call under
+// option set second.
+func seqPlan(first int, tolerate bool, second int, children []osm.FeatureID, mask int) plan {
+	p := plan{name: fmt.Sprintf("first-call=%s", optName(first))}
+	if tolerate {
+		p.name += "(may fail)"
+	}
+	p.calls = append(p.calls, call{opts: func() []annotate.Option { return optSet(first) }, tolerate: tolerate})
+	if children != nil {
+		p.name += fmt.Sprintf(" then=%s+child-filter-mask=%b", optName(second), mask)
+		p.calls = append(p.calls, call{opts: func() []annotate.Option { return append(optSet(second), filterOpt(children, mask)) }})
+	} else {
+		p.name += " then=" + optName(second)
+		p.calls = append(p.calls, call{opts: func() []annotate.Option { return optSet(second) }})
+	}
+	return p
+}
+
+// seq3Plan: default call, then two filtered calls (masks m1, m2 over children)
+// under option set opt; advance: the growing datasource advances before the
+// second call.
+func seq3Plan(opt int, children []osm.FeatureID, m1, m2 int, advance bool) plan {
+	p := plan{name: fmt.Sprintf("first-call=%s then=%s+child-filter-mask=%b then=%s+child-filter-mask=%b", optName(opt), optName(opt), m1, optName(opt), m2)}
+	if advance {
+		p.name += " (new child versions arrive after the first call)"
+	}
+	p.calls = append(p.calls, call{opts: func() []annotate.Option { return optSet(opt) }})
+	p.calls = append(p.calls, call{opts: func() []annotate.Option { return append(optSet(opt), filterOpt(children, m1)) }, advance: advance})
+	p.calls = append(p.calls, call{opts: func() []annotate.Option { return append(optSet(opt), filterOpt(children, m2)) }})
+	return p
+}
+
+// growPlan: a call under option set opt on the truncated histories, then the
+// new child versions arrive and a second call under the same options runs with
+// a child filter over mask.
+func growPlan(opt int, children []osm.FeatureID, mask int, lastOnly bool) plan {
+	p := plan{name: fmt.Sprintf("first-call=%s then-new-child-versions-arrive then=%s+child-filter-mask=%b", optName(opt), optName(opt), mask)}
+	if lastOnly {
+		p.name += "(newest parent version only)"
+	}
+	p.calls = append(p.calls, call{opts: func() []annotate.Option { return optSet(opt) }})
+	p.calls = append(p.calls, call{opts: func() []annotate.Option { return append(optSet(opt), filterOpt(children, mask)) }, advance: true, lastOnly: lastOnly})
+	return p
+}
+
+func run(in input, p plan) result {
 	ways, rels, ds := in()
 	var err error
 	var res result
 	var lists []osm.Updates
-	if opt >= reannotate {
-		if ways != nil {
-			err = annotate.Ways(context.Background(), ways, ds)
-		} else {
-			err = annotate.Relations(context.Background(), rels, ds)
+	for ci, c := range p.calls {
+		if a, ok := ds.(interface{ advance() }); ok && c.advance {
+			a.advance()
 		}
-		if err != nil {
+		ctx := context.Background()
+		if c.cancelled {
+			cctx, cancel := context.WithCancel(ctx)
+			cancel()
+			ctx = cctx
+		}
+		switch {
+		case ways != nil && c.lastOnly:
+			err = annotate.Ways(ctx, ways[len(ways)-1:], ds, c.opts()...)
+		case ways != nil:
+			err = annotate.Ways(ctx, ways, ds, c.opts()...)
+		case c.lastOnly:
+			err = annotate.Relations(ctx, rels[len(rels)-1:], ds, c.opts()...)
+		default:
+			err = annotate.Relations(ctx, rels, ds, c.opts()...)
+		}
+		if err != nil && (ci == len(p.calls)-1 || !c.tolerate) {
 			res.err = "error"
 			return res
 		}
 	}
 	if ways != nil {
-		err = annotate.Ways(context.Background(), ways, ds, optSet(opt)...)
 		for _, w := range ways {
 			lists = append(lists, w.Updates)
 		}
-		if err == nil {
-			data, _ := xml.Marshal(ways)
-			res.xml = string(data)
-		}
+		data, _ := xml.Marshal(ways)
+		res.xml = string(data)
 	} else {
-		err = annotate.Relations(context.Background(), rels, ds, optSet(opt)...)
 		for _, r := range rels {
 			lists = append(lists, r.Updates)
 		}
-		if err == nil {
-			data, _ := xml.Marshal(rels)
-			res.xml = string(data)
-		}
-	}
-	if err != nil {
-		res.err = "error"
-		return res
+		data, _ := xml.Marshal(rels)
+		res.xml = string(data)
 	}
 	for pi, us := range lists {
 		res.nupd += len(us)
@@ -122,7 +251,7 @@ func run(in input, opt int) result {
 				bad = a.Version > b.Version
 			}
 			if bad && res.order == "" {
-				res.order = fmt.Sprintf("parent version %d: update %d (index %d, %s, v%d) before update %d (index %d, %s, v%d)", pi, i-1, a.Index, a.Timestamp.Format(time.RFC3339), a.Version, i, b.Index, b.Timestamp.Format(time.RFC3339), b.Version)
+				res.order = fmt.Sprintf("parent version %d: update %d (index %d, %s, v%d) before update %d (index %d, %s, v%d)", pi, i-1, a.Index, a.Timestamp.Format(time.RFC3339Nano), a.Version, i, b.Index, b.Timestamp.Format(time.RFC3339Nano), b.Version)
 			}
 		}
 	}
@@ -130,9 +259,13 @@ func run(in input, opt int) result {
 }
 
 func scenario(name, fam string, nchildren int, in input, opt int) vexplore.Scenario {
+	return scenarioP(name, fam, in, optPlan(opt))
+}
+
+func scenarioP(name, fam string, in input, opt plan) vexplore.Scenario {
 	var ref *result
-	if opt != 0 {
-		name += " opts=" + optName(opt)
+	if opt.name != "" {
+		name += " opts=" + opt.name
 	}
 	return vexplore.Scenario{Name: name, Family: fam, Bound: 0, OnlyChildBelow: true,
 		New: func() (func(), func(*vsched.Outcome) ([]vexplore.Finding, string, bool)) {
@@ -140,6 +273,14 @@ func scenario(name, fam string, nchildren int, in input, opt int) vexplore.Scena
 				// canonical order: MapKeys outside a controlled execution sorts the keys
 				r := run(in, opt)
 				ref = &r
+				if d := os.Getenv("C12_DUMP"); d != "" && strings.Contains(name, d) {
+					// debugging aid: show what a scenario annotates in the canonical order
+					// (workers are separate processes: appended to the file $C12_DUMP_FILE)
+					if f, err := os.OpenFile(os.Getenv("C12_DUMP_FILE"), os.O_APPEND|os.O_CREATE|os.O_WRONLY, 0o644); err == nil {
+						fmt.Fprintf(f, "C12_DUMP %s\n  failed=%v updates=%d order=%q\n  %s\n", name, r.err != "", r.nupd, r.order, r.xml)
+						f.Close()
+					}
+				}
 			}
 			var got result
 			main := func() { got = run(in, opt) }
@@ -176,11 +317,22 @@ func clip(s string) string {
 // space (plus one for the initial world), so that no process ever holds the
 // whole list of histories.
 func historyGenerators(sp *histsim.Space, nopts int) []vexplore.Generator {
+	opts := make([]int, nopts)
+	for i := range opts {
+		opts[i] = i
+	}
+	return historyGeneratorsV(sp, sp.Name(), opts, nil, dsMode{fail: -1})
+}
+
+// historyGeneratorsV: label names the space (family, regime and variant), opts
+// are the option sets every history runs under, post (optional) edits the
+// rendered parents and histories before the call, m selects the datasource.
+func historyGeneratorsV(sp *histsim.Space, label string, opts []int, post func(osm.Ways, osm.Relations, *osm.HistoryDatasource), m dsMode) []vexplore.Generator {
 	ops := sp.Ops()
 	var gens []vexplore.Generator
 	for k := -1; k < len(ops); k++ {
 		k := k
-		gens = append(gens, vexplore.Generator{Name: fmt.Sprintf("%s subtree %d", sp.Name(), k), Gen: func(yield func(*vexplore.Scenario) bool) {
+		gens = append(gens, vexplore.Generator{Name: fmt.Sprintf("%s subtree %d", label, k), Gen: func(yield func(*vexplore.Scenario) bool) {
 			stop := false
 			sp.Walk(func(w *histsim.World, trace []histsim.Op) bool {
 				if stop {
@@ -194,11 +346,11 @@ func historyGenerators(sp *histsim.Space, nopts int) []vexplore.Generator {
 					return false
 				}
 				tr := append([]histsim.Op{}, trace...)
-				name := fmt.Sprintf("%s depth %d:", sp.Name(), len(tr))
+				name := fmt.Sprintf("%s depth %d:", label, len(tr))
 				for _, o := range tr {
 					name += " " + o.String(&sp.Fam)
 				}
-				in := func() (osm.Ways, osm.Relations, *osm.HistoryDatasource) {
+				in := func() (osm.Ways, osm.Relations, osm.HistoryDatasourcer) {
 					w := histsim.New(sp.Config())
 					u, _ := sp.Initial()
 					w.Apply(u)
@@ -206,13 +358,20 @@ func historyGenerators(sp *histsim.Space, nopts int) []vexplore.Generator {
 						w.Apply(sp.Upload(o))
 					}
 					ds := w.Datasource()
+					var ways osm.Ways
+					var rels osm.Relations
 					if sp.Fam.IsWay() {
-						return w.Ways(sp.Fam.Parent.WayID()), nil, ds
+						ways = w.Ways(sp.Fam.Parent.WayID())
+					} else {
+						rels = w.Relations(sp.Fam.Parent.RelationID())
 					}
-					return nil, w.Relations(sp.Fam.Parent.RelationID()), ds
+					if post != nil {
+						post(ways, rels, ds)
+					}
+					return ways, rels, wrapDS(ds, m, sp.Fam.Children)
 				}
-				for opt := 0; opt < nopts; opt++ {
-					sc := scenario(name, "histories/"+sp.Name(), len(sp.Fam.Children), in, opt)
+				for _, opt := range opts {
+					sc := scenario(name, "histories/"+label, len(sp.Fam.Children), in, opt)
 					if !yield(&sc) {
 						stop = true
 						return false
@@ -231,98 +390,81 @@ func historyGenerators(sp *histsim.Space, nopts int) []vexplore.Generator {
 // the given numbers of later versions; same[c] is a bit pattern: bit k set =
 // later version k+1 of child c shares the commit second of the version before.
 func stability(list []int, later []int, same []int) input {
-	return func() (osm.Ways, osm.Relations, *osm.HistoryDatasource) {
+	return stabilityV(list, later, same, 0)
+}
+
+// stabVariants: value classes of the stability family (boundary audit). The
+// equal-timestamp patterns are the same in every variant.
+var stabVariants = []string{
+	"2015, UTC, versions 1..n, node ids 1..c",
+	"first child version stamped with the zero time (year 1), the parent one hour later",
+	"the versions straddle 1970-01-01T00:00:00Z (negative and positive Unix times)",
+	"the versions straddle 2262-04-11T23:47:16.854775807Z, the last instant that fits into int64 nanoseconds",
+	"even versions carry their (equal) instants in the zone +05:30",
+	"versions numbered from 2^31-2 upwards",
+	"versions of one commit second differ by a quarter of a second each (distinct instants, ascending with the version)",
+	"distinct element timestamps, equal commit times inside one commit",
+	"node ids 2^40-1, 2^40-2, ... (the largest the 40 ref bits of osm.FeatureID hold)",
+	"every later version of the first child is stored twice (same version and times, another position)",
+}
+
+func stabilityV(list []int, later []int, same []int, variant int) input {
+	return func() (osm.Ways, osm.Relations, osm.HistoryDatasourcer) {
 		t0 := time.Date(2015, 3, 1, 12, 0, 0, 0, time.UTC)
+		vbase := 0
+		zone := time.FixedZone("+0530", 5*3600+1800)
+		nid := func(c int) osm.NodeID { return osm.NodeID(c + 1) }
+		switch variant {
+		case 1:
+			t0 = time.Time{}.Add(time.Hour)
+		case 2:
+			t0 = time.Unix(-350, 0).UTC() // versions 2 and 3 before, the later ones after the epoch
+		case 3:
+			t0 = time.Date(2262, 4, 11, 23, 41, 27, 0, time.UTC) // versions 2 and 3 before, the later ones after the limit
+		case 5:
+			vbase = 1<<31 - 3
+		case 8:
+			nid = func(c int) osm.NodeID { return osm.NodeID(1<<40 - 1 - int64(c)) }
+		}
 		ds := &osm.HistoryDatasource{Nodes: map[osm.NodeID]osm.Nodes{}}
 		for c, nv := range later {
-			id := osm.NodeID(c + 1)
+			id := nid(c)
 			t := t0.Add(-time.Hour)
+			run := 0
 			for v := 1; v <= nv+1; v++ {
 				if v > 1 {
 					if same[c]&(1<<uint(v-2)) != 0 && v > 2 {
 						// same second as the previous version (one commit)
+						run++
 					} else {
 						t = t0.Add(time.Duration(v*100+c) * time.Second)
+						run = 0
 					}
 				}
-				ct := t
-				ds.Nodes[id] = append(ds.Nodes[id], &osm.Node{ID: id, Version: v, Visible: true, ChangesetID: osm.ChangesetID(1000 + v), Lat: float64(v), Lon: float64(c + 1), Timestamp: t, Committed: &ct})
+				ts, ct := t, t
+				switch variant {
+				case 4:
+					if v%2 == 0 {
+						ts, ct = ts.In(zone), ct.In(zone)
+					}
+				case 6:
+					ts = t.Add(time.Duration(run) * 250 * time.Millisecond)
+					ct = ts
+				case 7:
+					ts = t.Add(time.Duration(run) * time.Second)
+				}
+				ds.Nodes[id] = append(ds.Nodes[id], &osm.Node{ID: id, Version: vbase + v, Visible: true, ChangesetID: osm.ChangesetID(1000 + v), Lat: float64(v), Lon: float64(c + 1), Timestamp: ts, Committed: &ct})
+				if variant == 9 && c == 0 && v > 1 {
+					ct2 := ct
+					ds.Nodes[id] = append(ds.Nodes[id], &osm.Node{ID: id, Version: vbase + v, Visible: true, ChangesetID: osm.ChangesetID(1000 + v), Lat: float64(v) + 0.5, Lon: float64(c + 1), Timestamp: ts, Committed: &ct2})
+				}
 			}
 		}
 		w := &osm.Way{ID: 77, Version: 1, Visible: true, ChangesetID: 5, Timestamp: t0, Committed: &t0}
 		for _, c := range list {
-			w.Nodes = append(w.Nodes, osm.WayNode{ID: osm.NodeID(c + 1)})
+			w.Nodes = append(w.Nodes, osm.WayNode{ID: nid(c)})
 		}
 		return osm.Ways{w}, nil, ds
-	}
-}
-
-// lateKinds: what the history of one child of the late-child family looks like
-// relative to the two parent versions (stamped P1 < P2).
-var lateKinds = []string{"normal", "starts-after-P1", "starts-after-P2", "deleted-between-P1-and-P2", "no-history", "two-versions-same-second-after-P1", "forward-grouped-with-P1"}
-
-func lateChild(kinds []int) input { return lateChildCommitted(kinds, 0) }
-
-// lateChildCommitted: committed > 0 stamps a commit time (timestamp + 20 s) on
-// SOME versions only - pattern 1: child versions with (version + child) even
-// and the first parent version; pattern 2: every version of the first child
-// and the second parent version; pattern 3: odd versions of every child, no
-// parent. Histories that mix versions with and without a commit time are
-// unusual and valid (older data has none).
-func lateChildCommitted(kinds []int, committed int) input {
-	return func() (osm.Ways, osm.Relations, *osm.HistoryDatasource) {
-		year := 2011
-		if committed > 0 {
-			year = 2014 // commit times before osm.CommitInfoStart (2012-09-12) are ignored by the library
-		}
-		d := func(day int) time.Time { return time.Date(year, 1, 1, 0, 0, 0, 0, time.UTC).AddDate(0, 0, day) }
-		ds := &osm.HistoryDatasource{Nodes: map[osm.NodeID]osm.Nodes{}}
-		p1, p2 := d(100), d(200)
-		w1 := &osm.Way{ID: 7, Version: 1, Visible: true, ChangesetID: 50, Timestamp: p1}
-		w2 := &osm.Way{ID: 7, Version: 2, Visible: true, ChangesetID: 60, Timestamp: p2}
-		for c, k := range kinds {
-			id := osm.NodeID(c + 1)
-			w1.Nodes = append(w1.Nodes, osm.WayNode{ID: id})
-			w2.Nodes = append(w2.Nodes, osm.WayNode{ID: id})
-			mk := func(v int, t time.Time, visible bool) *osm.Node {
-				n := &osm.Node{ID: id, Version: v, Visible: visible, ChangesetID: osm.ChangesetID(100*(c+1) + v), Timestamp: t, Lat: float64(v), Lon: float64(c + 1)}
-				if (committed == 1 && (v+c)%2 == 0) || (committed == 2 && c == 0) || (committed == 3 && v%2 == 1) {
-					ct := t.Add(20 * time.Second)
-					n.Committed = &ct
-				}
-				return n
-			}
-			switch lateKinds[k] {
-			case "normal":
-				ds.Nodes[id] = osm.Nodes{mk(1, d(10+c), true), mk(2, d(120+c), true), mk(3, d(150+c), true), mk(4, d(250+c), true)}
-			case "starts-after-P1":
-				ds.Nodes[id] = osm.Nodes{mk(1, d(130+c), true), mk(2, d(160+c), true), mk(3, d(260+c), true)}
-			case "starts-after-P2":
-				ds.Nodes[id] = osm.Nodes{mk(1, d(230+c), true), mk(2, d(270+c), true)}
-			case "deleted-between-P1-and-P2":
-				ds.Nodes[id] = osm.Nodes{mk(1, d(20+c), true), mk(2, d(140+c), false), mk(3, d(170+c), true), mk(4, d(280+c), true)}
-			case "no-history":
-			case "forward-grouped-with-P1":
-				// first version written by P1's own upload, stamped 10 s after the parent:
-				// only the same-changeset forward grouping (inside the threshold) finds it
-				n1 := mk(1, p1.Add(10*time.Second), true)
-				n1.ChangesetID = 50
-				ds.Nodes[id] = osm.Nodes{n1, mk(2, d(150+c), true), mk(3, d(255+c), true)}
-			case "two-versions-same-second-after-P1":
-				ds.Nodes[id] = osm.Nodes{mk(1, d(30+c), true), mk(2, d(135), true), mk(3, d(135), true), mk(4, d(290+c), true)}
-			}
-		}
-		if committed == 1 {
-			ct := p1.Add(20 * time.Second)
-			w1.Committed = &ct
-		} else if committed == 2 {
-			ct := p2.Add(20 * time.Second)
-			w2.Committed = &ct
-		}
-		// the first node closes the way: one child at two indexes
-		w1.Nodes = append(w1.Nodes, osm.WayNode{ID: 1})
-		w2.Nodes = append(w2.Nodes, osm.WayNode{ID: 1})
-		return osm.Ways{w1, w2}, nil, ds
 	}
 }
 
@@ -332,7 +474,7 @@ func lateChildCommitted(kinds []int, committed int) input {
 // ways, so that member orientation is computed too. layout permutes the member
 // order; two relation versions, the children edited in between.
 func sharedRefs(typ string, layout int) input {
-	return func() (osm.Ways, osm.Relations, *osm.HistoryDatasource) {
+	return func() (osm.Ways, osm.Relations, osm.HistoryDatasourcer) {
 		d := func(day int) time.Time { return time.Date(2014, 1, 1, 0, 0, 0, 0, time.UTC).AddDate(0, 0, day) }
 		ring := func(id osm.WayID, v int, t time.Time, cw bool, size float64) *osm.Way {
 			pts := [][2]float64{{0, 0}, {size, 0}, {size, size}, {0, size}, {0, 0}}
@@ -376,8 +518,10 @@ func sharedRefs(typ string, layout int) input {
 func main() {
 	kit.Main("C12", "model_checking", func(r *kit.Run) {
 		r.Rule("every iteration order (all n! orders, free explorer choices) of the child map in core.Compute for (i) every history of edit-alphabet spaces (gen/histsim: way over 3 nodes, relation over 4 members, repeated-node churn way) up to the tier's depth and (ii) a stability family: one way version over 2-4 children (one repeated) with 13-24 updates and every pattern of equal one-second timestamps; (iii) a late-child family: two parent versions over 2-3 children whose histories are normal / start after a parent version / contain a deleted version between the parents / are missing / have same-second versions, under four option sets; (v) a mixed-committed family: the late-child histories with a commit time on some versions only; (vi) a shared-refs family: a multipolygon / boundary / route relation whose way, node and relation members share their numbers, over annotated rings (orientation is part of the result); (iv) a re-annotate family: parents annotated once, then again with ChildFilter over every subset of the children; histories of (i) run under the default options and with IgnoreInconsistency; " +
+			"boundary audit: 13 child history kinds (empty history, a single deleted version, a version stamped exactly like the parent, an unsorted history, version gaps up to 70000, a version exactly one threshold before P2) and a fourth commit-time pattern (commit times exactly from osm.CommitInfoStart on); (A) 7 more option sets (thresholds 0 / negative / 150 days, both ignore options, options given twice, a child filter on a first call); (B) relation parents over way / node / relation members with those history kinds; (C) 11 parent lists other than [P1, P2] (one version, reversed, same object twice, a copy, deleted version in between, three versions, versions of two parents); (D) custom datasources (plain interface with its own not-found error and unsorted fresh copies, the AsChildren interfaces with cached children, a backend error for one child, a cancelled context); (E) call sequences (first call ignoring inconsistencies then a filtered call; a failing call then a good one; polygon relations and custom datasources annotated twice); (F) polygon relations whose outer ring is joined from 2-3 open ways (member listed twice, way without history, ways with update lists, deleted ring version); (G) stability value classes (zero time, 1970, year 2300, mixed zones, versions around 2^31, sub-second instants, equal commit times over distinct timestamps, ids at 2^40-1), update lists of 50-57 entries, 5-7 children; (I) child ids around 2^31, 2^32, 2^40; (H) history spaces with equal member numbers under a multipolygon tag, wide ids + reversing ways + version steps, children at 3-5 positions served as children, histories crossing osm.CommitInfoStart, a plain datasource; " +
 			"oracle: result identical to the canonical-order result (or both fail) and every update list sorted by (index, timestamp, version); non-vacuous = at least one order choice was made and the history has >= 2 updates; states = execution-tree nodes (order choices), transitions = choices taken")
 		r.Assume("vinst replaces only the map range in compute.go (vsched.MapKeys); outside a controlled execution the canonical order is sorted keys")
+		r.Assume("not enumerated because the property text does not decide them: negative child ids and ids >= 2^40 (annotate keys children by the 40 bit osm.FeatureID by design), relation members of an unsupported type (osm.Member.FeatureID panics before the map is built), child version 0 (the 'not annotated' marker of WayNode / Member), datasources that are not functions of the id (fail on the k-th request), a second call with a DIFFERENT threshold after a failed call (what the failed call annotated legitimately stays when the second call finds no version), an Option that returns an error (no map is built)")
 		var scs []vexplore.Scenario
 		add := func(s vexplore.Scenario) { scs = append(scs, s) }
 		counts := map[string]int{}
@@ -478,8 +622,8 @@ func main() {
 					kinds[i] = x % len(lateKinds)
 					x /= len(lateKinds)
 				}
-				for pat := 1; pat <= 3; pat++ {
-					if r.Quick() && c == 3 && pat != 1+code%3 {
+				for pat := 1; pat <= 4; pat++ {
+					if r.Quick() && c == 3 && pat != 1+code%4 {
 						continue
 					}
 					for _, opt := range []int{0, 3} {
@@ -520,12 +664,21 @@ func main() {
 		}
 		for c := 2; c <= 3; c++ {
 			for mask := 0; mask < 1<<uint(c); mask++ {
-				add(scenario("reannotate late-child all-normal", fmt.Sprintf("reannotate/%d-children", c), c, lateChild(make([]int, c)), reannotate+mask))
+				add(scenario(fmt.Sprintf("reannotate late-child all-normal %d children", c), fmt.Sprintf("reannotate/%d-children", c), c, lateChild(make([]int, c)), reannotate+mask))
 				nre++
 			}
 		}
 		counts["reannotate"] = nre
+		auditFamilies(r, add, &gens, counts)
 		r.Set("history_space_depths", counts)
+		// replays identify a scenario by its name
+		seen := map[string]bool{}
+		for i := range scs {
+			if seen[scs[i].Name] {
+				kit.Fatalf("two scenarios are called %q", scs[i].Name)
+			}
+			seen[scs[i].Name] = true
+		}
 		sort.SliceStable(scs, func(i, j int) bool { return false })
 		e := &vexplore.Explorer{R: r, Scenarios: scs, Generators: gens}
 		budget := 6 * time.Minute
